@@ -59,8 +59,8 @@ h_crypto.must_cover = ["reached"]
 
 
 @harness(["C02", "C16"], "quic.decrypt_packet", functions=[QS + ".decrypt_packet"],
-         cases=[(t, s) for t in ("INITIAL", "HANDSHAKE", "RTT_O", "RTT_1") for s in (True, False)])
-def h_decrypt_packet(c, ptype, isserver):
+         cases=[(t, s, f) for t in ("INITIAL", "HANDSHAKE", "RTT_O", "RTT_1") for s in (True, False) for f in ("none", "parse_frames", "handle_frame", "decrypt")])
+def h_decrypt_packet(c, ptype, isserver, fail="none"):
     """the packet is opened with the decryptor of ITS type (and, for 1-RTT, of its direction's key epoch), the packet
     number A.3 reconstructed for it, and the associated data RFC 9001 5.3 prescribes: the header bytes from the first
     byte through the (unprotected) packet number; the frames of the plaintext are then handled once each, in order"""
@@ -91,17 +91,40 @@ def h_decrypt_packet(c, ptype, isserver):
         pkt = c.obj(QP + ".LongQuicPacket", **attrs)
     epoch_s, epoch_c = c.choice("epoch_server", [0, 1]), c.choice("epoch_client", [0, 1])
     full_pn = c.bytes("full_packet_number", length=8)
-    c.summary_override(QS + ".get_full_packet_number", lambda ctx, slf, p: full_pn)
+    s = c.obj(QS, decryptors=decs, epoch_server=epoch_s, epoch_client=epoch_c)
+    c.method(s, "set_packet_number_spaces")          # the real tables: one entry per packet-number space and direction
+    tables = {True: c.get(s, "packet_number_server"), False: c.get(s, "packet_number_client")}
+    before = {d: dict(t) for d, t in tables.items()}
+    new_largest = c.int("largest_after_this_packet", 0, 2 ** 62 - 1)
+    space = [k for k in tables[isserver] if any(m is c.enum(PT, ptype) for m in k)]
+    assert len(space) == 1, space
+
+    def s_full_pn(ctx, slf, p):
+        # contract of get_full_packet_number (C16 pkn.full): the space/direction entry becomes the new largest; returns the nonce value
+        tables[isserver][space[0]] = new_largest
+        return full_pn
+    c.summary_override(QS + ".get_full_packet_number", s_full_pn)
     c.summary_override(QS + ".check_key_epoch", lambda ctx, slf, kp, srv: None)
     f1, f2 = c.opaque("frame1"), c.opaque("frame2")
     parsed = []
-    c.summary_override(QF + ".parse_frames", lambda ctx, pl, p: parsed.append((pl, p)) or [f1, f2])
+    c.summary_override(QF + ".parse_frames", lambda ctx, pl, p: c.raise_in_code("IndexError") if fail == "parse_frames" else parsed.append((pl, p)) or [f1, f2])
     handled = []
-    c.summary_override(QS + ".handle_frame", lambda ctx, slf, fr: handled.append(fr))
-    s = c.obj(QS, decryptors=decs, epoch_server=epoch_s, epoch_client=epoch_c)
+    c.summary_override(QS + ".handle_frame", lambda ctx, slf, fr: c.raise_in_code("ValueError") if fail == "handle_frame" else handled.append(fr))
+    if fail == "decrypt":
+        for d in [decs["Initial"], decs["Handshake"], decs["Early"]] + decs["Application"]:
+            d.attrs["__handler__"] = lambda m, a, k: c.raise_in_code("InvalidTag")
     out = c.method(s, "decrypt_packet", pkt)
     c.ensure("no_raise", out.exc is None, kind="raises")
     if out.exc is not None:
+        return
+    # C16: 'largest received' per space and direction is maintained by get_full_packet_number alone - an authenticated packet
+    # counts even if a frame in it cannot be processed, and no other space or direction is touched
+    if fail != "decrypt":
+        c.ensure("largest_received.kept_for_an_authenticated_packet", c.get(s, "packet_number_server") is tables[True] and c.get(s, "packet_number_client") is tables[False]
+                 and c.prove(eq(tables[isserver][space[0]], new_largest)))
+    c.ensure("largest_received.other_spaces_and_direction_untouched", all(c.same_object(tables[d][k], before[d][k]) for d in tables for k in tables[d]
+                                                                         if not (d == isserver and k == space[0])))
+    if fail != "none":
         return
     want_dec = {"INITIAL": decs["Initial"], "HANDSHAKE": decs["Handshake"], "RTT_O": decs["Early"]}.get(ptype)
     if want_dec is None:
@@ -226,3 +249,47 @@ def h_key_epoch(c, isserver):
     else:
         c.ensure("no_update", len(made) == 0 and gens.appended == 0)
     c.ensure("every_epoch_has_its_generation", (g(my_e) < n + gens.appended) & (g(ot_e) < n + gens.appended))
+
+
+@harness(["C15", "C02"], "quic.handle_crypto_frame", functions=[QS + ".handle_crypto_frame"],
+         cases=[(nd, cr, cs, hs) for nd in (True, False) for cr in (True, False) for cs in (True, False) for hs in (True, False)])
+def h_handle_crypto_frame(c, new_data, has_random, has_suite, has_handshake_keys):
+    """RFC 9001 5: the packet protection keys follow the NEGOTIATED suite.  Whenever the TLS parser reports new data and both the
+    client random and a cipher suite are known, the traffic keys are (re-)installed for exactly the CURRENT (client random,
+    cipher suite) of the TLS session - also when keys derived earlier (from the suite the client offered first) are already
+    installed; the frame is exported; the new-data flag is consumed"""
+    if c.native:
+        return
+    random_, suite = (c.bytes("client_random", length=32) if has_random else None), (c.bytes("ciphersuite", length=2) if has_suite else None)
+    alpn, grease = c.opaque("alpn"), c.bool("greasy_bit")
+    frame = c.opaque("crypto_frame")
+    updates, installs = [], []
+
+    def s_update(m, a, k):
+        # contract of QuicTlsSession.update_session: parses what the frame completes and publishes the results on the session
+        updates.append(a)
+        tls.attrs.update(new_data=new_data, client_random=random_, ciphersuite=suite, alpn=alpn, greasy_bit=grease)
+    tls = c.recorder("tls_session", handler=lambda m, a, k: s_update(m, a, k) if m == "update_session" else None, new_data=False, client_random=None,
+                         ciphersuite=None, alpn=None, greasy_bit=False)
+    c.summary_override(QS + ".set_tls_decryptors", lambda ctx, slf, cr, cs: installs.append((cr, cs)))
+    earlier = [c.opaque("earlier_frame")]
+    decs = {"Initial": c.opaque("initial")}
+    if has_handshake_keys:
+        decs["Handshake"] = c.opaque("handshake_keys_of_the_first_offered_suite")
+        decs["Application"] = [c.opaque("application_keys_of_the_first_offered_suite")]
+    s = c.obj(QS, tls_session=tls, decryptors=decs, output_buffer=list(earlier), alpn=None, greasy_bit=False)
+    out = c.method(s, "handle_crypto_frame", frame)
+    c.ensure("no_raise", out.exc is None, kind="raises")
+    if out.exc is not None:
+        return
+    c.ensure("tls_parser_fed_once_with_the_frame", len(updates) == 1 and len(updates[0]) == 1 and updates[0][0] is frame)
+    if new_data and has_random and has_suite:
+        c.ensure("keys_installed_for_the_current_random_and_suite", len(installs) == 1 and installs[0][0] is random_ and installs[0][1] is suite)
+    else:
+        c.ensure("no_keys_installed", len(installs) == 0)
+    c.ensure("frame_exported_after_earlier_ones", len(c.get(s, "output_buffer")) == 2 and c.get(s, "output_buffer")[0] is earlier[0] and c.get(s, "output_buffer")[1] is frame)
+    c.ensure("new_data_flag_consumed", c.get(tls, "new_data") is False)
+    c.cover("returned")
+
+
+h_handle_crypto_frame.must_cover = ["returned"]
